@@ -68,9 +68,12 @@ for pid, (txt, dref) in cpu_props.items():
     checks[pid] = dict(category="exploration", design=dref, text=txt + CPU_LEVEL, note=CPU_NOTE,
                        technique="differential testing of the real machines against a Lean 4 specification (Spec.run) with generator families targeted at the property, shrinking and known-finding trigger predicates; Lean proofs only for the instruction layer (C02) and MVP-1/MVP-2 (C12)")
 
-NA = {
-    "C06": "check under construction (MSI snapshot monitor + abstract protocol model): no claim until the model, its theorems and the snapshot hooks are committed",
-}
+checks["C06"] = dict(category="proof", design="§4 C06",
+    text="18 theorems (Props/C06.lean) about an abstract transition system of the MSI directory and the per-core cache controllers (Model/Msi.lean: line states, data, lock counters, request stages; actions request/snoop/fill/complete/flush) for ANY number of cores and lines and EVERY interleaving: a 19-conjunct invariant holds initially and is preserved by every action except a flush of a core with a request in progress; from it: single writer, no sharer beside a writer, a Shared line equals the next level (the data clause), resident iff not Invalid outside a transfer in progress, counters non-negative, semaphore sanity, no panic; and the decidable predicate MsiInv that the monitor evaluates on real snapshots is true of the snapshot of every reachable model state. With flush the full statement is FALSE: two proved witnesses (findings KF-C06-flush-window, KF-C06-flush-read-of-modified). MVP-8's L3 layer is not modelled (monitored as `next level`).",
+    note="Trusted: Lean kernel, standard axioms, the hand-written abstract model (tied to proc/mvp7-0, mvp7-1, mvp8-0 msi.go/cc.go by REFINEMENT REPLAY: every consecutive pair of per-cycle snapshots of the real code must be explained by model steps, and the Go-side and Lean-side MsiInv verdicts on each snapshot must agree), the verif hooks that export the snapshots (new files proc/*/verif_on.go, read-only), the controller rig (NewVerifRig) for the bounded-exhaustive request interleavings (k <= 3 quick, k <= 4 thorough) and the whole-CPU runs on 1..4 cores. Runs that panic or hang for reasons outside C06 are recorded and skipped.",
+    technique="Lean 4 inductive-invariant proof on an abstract protocol model; per-cycle snapshot monitor of the real code with refinement replay through the model; bounded-exhaustive request interleavings on a pipeline-free rig as search")
+
+NA = {}
 
 allp = [f"C{i:02d}" for i in range(1, 17)]
 m = {
@@ -78,7 +81,8 @@ m = {
     "setup_cmd": "bin/setup",
     "hooks": {"guard": "verif", "enable": "go build -tags verif (the harness in /verif/go is built with it against /repo)",
               "baseline_off_cmd": "/verif/bin/baseline-check",
-              "source_commits": ["f346ac5 verif hook: Context.VerifTick, a no-op without the verif build tag, called once per iteration of every Run loop"],
+              "source_commits": ["f346ac5 verif hook: Context.VerifTick (risc/verif_on.go, risc/verif_off.go; one call per iteration of every Run loop in proc/mvp*/cpu.go)",
+                                 "1e76d29 verif hooks: MSI/L1/L3/semaphore snapshots and controller rig (new files proc/comp/verif_on.go, proc/mvp7-0/verif_on.go, proc/mvp7-1/verif_on.go, proc/mvp8-0/verif_on.go; VerifSetOnTick in risc/verif_on.go)"],
               "add_only": True},
     "engines": [
         {"name": "lean-proof", "path": "lean/", "serves_properties": sorted(checks), "kind_free_text": "Lean 4 library: Spec (trusted statement), Gen (regenerated from /repo each run), Model (hand models), Proofs, Props (property theorems), Driver (compiled line-protocol drivers)"},
